@@ -25,6 +25,8 @@ let run lines =
   | "spec02" -> Model.run_spec02 lines
   | "snap" -> Model.run_snap lines
   | "spec12" -> Model.run_spec12 lines
+  | "model04" -> Model.run_model04 lines
+  | "spec04" -> Model.run_spec04 lines
   | m -> failwith ("unknown mode " ^ m)
 
 let flush_script acc =
